@@ -157,6 +157,7 @@ func checkC01(w *World, r *Report) {
 	r.Rule("C01.iface", "P8", "the expected-keeper interfaces of cfevesting and cfesignature contain no supply-changing or delegation method, and neither module imports a concrete bank keeper", 4)
 	r.Rule("C01.moveonly", "P4", "every bank atom reachable from a cfevesting / cfesignature message is a move or a read, and module-name arguments of moves are the module's own constant", 5)
 	r.Rule("C01.mint1", "P5,P6", "in the minting routine: one mint per activation, not in a loop; the coins minted, the coins forwarded to the collector and the amount added to AmountMinted are the same value; module names are cfeminter -> collector; the collector passed in app.New is the distributor's main account; state is updated only on the success edges of mint and forward", 6)
+	r.Rule("C01.sameshape", "P7", "= C12.sameshape for State.Account: the configured burn is carried out whatever shape the burn state's unused Account field has (nil after import / migration, empty when created at run time); otherwise the burn share is booked but supply does not fall", 1)
 	r.Rule("C01.abort", "P5", "on the minter's block tree every call that mints or forwards coins (directly or below it) has its failure edge end in an error return or, at the block routine, in a panic: a half-done mint is never committed", 4)
 	r.Rule("C01.wrapper", "P4,P6", "= C14.wrapper: the distributor's burn and transfer wrappers pass amount, account and result through unchanged (a burn of more than what its caller books would shrink supply beyond the configured share)", 4)
 	r.Rule("C01.burn1", "P5,P6", "the burn is reached only under the true edge of State.Burn; the burned coins are result #0 of state.Remains.TruncateDecimal(), the account is DistributorMainAccount, and state.Remains is overwritten with result #1 of the same call only on the success edge", 5)
@@ -358,6 +359,13 @@ func checkC01(w *World, r *Report) {
 				r.Check(ok, "C01.abort", funcName(fn)+": error of "+s.CalleeName()+" aborts the block", w.Pos(s.Instr.Pos()), "the failure edge ends in an error return or a panic on every path", "a failure after coins may already have been minted is swallowed: the block commits minted coins that the minter state does not record, and the next block mints them again")
 			}
 		}
+	}
+	// ---------- C01.sameshape ----------
+	for _, nf := range w.mayBeNilFields(flatten(ro.EXPORT)) {
+		if nf.Field != "Account" {
+			continue
+		}
+		w.checkSameShape(r, "C01.sameshape", nf, ro.BLK["cfedistributor"])
 	}
 	// ---------- C01.burn1 ----------
 	c01burn(w, r, burnSites)
